@@ -213,6 +213,7 @@ func warmReconnectCase(c *vh.Ctx, i int) {
 		hosts: []string{"w0.example.com", "w1.example.com", "w2.example.com", "w3.example.com", "w4.example.com", "w5.example.com"}}
 	debounce := time.Duration(1+r.Intn(4)) * time.Millisecond
 	w := newWorld(c, debounce)
+	w.caseName = fmt.Sprintf("reconnect-warm/%d", i)
 	cur := w.a
 	defer func() {
 		if cur != w.a {
@@ -310,6 +311,7 @@ func warmReconnectCase(c *vh.Ctx, i int) {
 		}
 		old := cur
 		cur = next
+		w.cur = cur
 		for kk, cl := range base {
 			cl.Connect(cur.srv.Discovery, envoyclient.Fault{}, kk%3 == 0)
 		}
